@@ -64,7 +64,7 @@ Section Exec.
 
   Definition fork_experiment (ops : list op) (k : nat) : option (bool * bool * bool) :=
     let progs := fun t => match t with 0 => [Fork; Call ops] | 1 => [Call ops] | _ => [] end in
-    let s0 := init progs in
+    let s0 := init hs progs in
     let s1 := run_until_locks 4000 k 1 s0 in
     (* thread 0 starts its fork: LStart, then the prepare handler *)
     match step hs 0 s1 with
